@@ -2,6 +2,7 @@ package main
 
 import (
 	"fmt"
+	"os"
 	"go/constant"
 	"go/token"
 	"go/types"
@@ -54,6 +55,13 @@ func (env *Env) bind(name string, tv TV) *Env {
 }
 
 type evalErr string
+
+// debugEqLeaves (GOVC_EQLEAVES, experiments only) truncates struct equality.
+var debugEqLeaves = func() int {
+	n := 0
+	fmt.Sscanf(os.Getenv("GOVC_EQLEAVES"), "%d", &n)
+	return n
+}()
 
 func efail(f string, a ...interface{}) {
 	panic(evalErr(fmt.Sprintf(f, a...)))
@@ -331,6 +339,8 @@ func (ex *Exec) ghostLoad(st *State, iname, f string, ft types.Type, ref string)
 		for _, l := range leavesOf(mt.Elem()) {
 			key := "GM." + iname + "." + f + "." + l.Path
 			srt := SArr(SInt, SArr(SInt, l.Sort))
+			ex.kinds[key] = l.Kind
+			ex.leafTyp[key] = l.Typ
 			v.Fs = append(v.Fs, vInt(mkSelect(ex.get(st, key, srt), ref)))
 		}
 		return v
@@ -364,10 +374,7 @@ func (env *Env) evalIndex(e *EIndex) TV {
 		return TV{V: v, T: mt.Elem()}
 	case VSlice:
 		et := x.T.Underlying().(*types.Slice).Elem()
-		p := &Ptr{Root: "elem", Base: et, Ref: x.V.Fs[0].T, Idx: mkApp("+", x.V.Fs[1].T, it), Elem: et}
-		if x.V.Fs[1].T == "0" {
-			p.Idx = it
-		}
+		p := &Ptr{Root: "elem", Base: et, Ref: x.V.Fs[0].T, Idx: ex.sidx(x.V.Fs[1].T, it), Elem: et}
 		return TV{V: ex.load(env.st, p, et), T: et}
 	case VInt:
 		if mt, ok := x.T.Underlying().(*types.Map); ok {
@@ -396,6 +403,9 @@ func valEq(a, b Val) string {
 	cs := make([]string, len(fa))
 	for i := range fa {
 		cs[i] = mkEq(fa[i], fb[i])
+	}
+	if n := debugEqLeaves; n > 0 && len(cs) > n {
+		cs = cs[:n]
 	}
 	return mkAnd(cs...)
 }
@@ -458,9 +468,9 @@ func (env *Env) evalBinary(e *EBinary) TV {
 		}
 		return TV{V: vInt(mkApp(e.Op, x.V.T, y.V.T)), T: arithType(x.T, y.T), Math: true}
 	case "/":
-		return TV{V: vInt(mkApp("div", x.V.T, y.V.T)), T: arithType(x.T, y.T), Math: true}
+		return TV{V: vInt(env.ex.udiv(x.V.T, y.V.T)), T: arithType(x.T, y.T), Math: true}
 	case "%":
-		return TV{V: vInt(mkApp("mod", x.V.T, y.V.T)), T: arithType(x.T, y.T), Math: true}
+		return TV{V: vInt(env.ex.umod(x.V.T, y.V.T)), T: arithType(x.T, y.T), Math: true}
 	}
 	efail("unsupported operator %s", e.Op)
 	return TV{}
@@ -700,6 +710,23 @@ func (env *Env) evalCall(e *ECall) TV {
 		}
 		return TV{V: vInt(mkApp(ex.errMsgFun(), x.V.Fs[0].T, x.V.Fs[1].T)), T: types.Typ[types.String]}
 	}
+	// integer conversions are the identity on mathematical integers
+	if len(e.Args) == 1 {
+		if obj := types.Universe.Lookup(e.Fn); obj != nil {
+			if tn, ok := obj.(*types.TypeName); ok && isIntType(tn.Type()) {
+				x := env.eval(e.Args[0])
+				return TV{V: x.V, T: tn.Type()}
+			}
+		}
+		if obj := ex.prog.Pkg.Types.Scope().Lookup(e.Fn); obj != nil {
+			if tn, ok := obj.(*types.TypeName); ok {
+				x := env.eval(e.Args[0])
+				if x.V.K == VInt {
+					return TV{V: x.V, T: tn.Type()}
+				}
+			}
+		}
+	}
 	// spec function
 	if sf, ok := ex.ctr.Specs[e.Fn]; ok {
 		if len(sf.Params) != len(e.Args) {
@@ -851,7 +878,7 @@ func (env *Env) modLocs(e Expr) []ModLoc {
 		if x.V.K == VSlice {
 			et := x.T.Underlying().(*types.Slice).Elem()
 			var out []ModLoc
-			for _, l := range ptrLocs(&Ptr{Root: "elem", Base: et, Ref: x.V.Fs[0].T, Idx: mkApp("+", x.V.Fs[1].T, i), Elem: et}, et) {
+			for _, l := range ptrLocs(&Ptr{Root: "elem", Base: et, Ref: x.V.Fs[0].T, Idx: ex.sidx(x.V.Fs[1].T, i), Elem: et}, et) {
 				ex.get(env.st, l.Key, l.Sort)
 				out = append(out, ModLoc{Key: l.Key, Sort: l.Sort, Idx: l.Idx})
 			}
